@@ -4,6 +4,8 @@
 For each /verif/seeded/<name>/patch.diff: the repository's own suite must still pass with the
 patch; then every check listed in meta.json (property + also_relevant) is run; the outcome is
 stored in /verif/seeded/<name>/result.json."""
+import json, os as _os0
+_os0.environ.setdefault('VERIF_FROM_HEAD', '1')
 import json, os, subprocess, sys, glob, concurrent.futures, threading, re
 prefix = sys.argv[1] if len(sys.argv) > 1 and not sys.argv[1].startswith('--') else ''
 slots = 4
